@@ -27,6 +27,7 @@ import (
 	"go/types"
 	"os"
 	"path/filepath"
+	"regexp"
 	"sort"
 	"strings"
 )
@@ -135,6 +136,7 @@ func main() {
 		mod.build([]*pkgInfo{field, root})
 		// classification must see every package before any file is rewritten
 		for _, p := range []*pkgInfo{field, root} {
+			scanAssembly(p, tags)
 			classifySched(p)
 		}
 		for _, p := range []*pkgInfo{field, root} {
@@ -672,6 +674,12 @@ func (p *pkgInfo) mentionsIn(n ast.Node, skipBodies bool, aliases map[types.Obje
 				return true
 			}
 			out = append(out, mention{g, writes[v]})
+		case *ast.CallExpr:
+			if callee, _ := p.calleeOf(v); callee != nil {
+				for _, g := range asmGlobals[callee] {
+					out = append(out, mention{g, true})
+				}
+			}
 		}
 		return true
 	})
@@ -700,6 +708,61 @@ func classifySched(p *pkgInfo) {
 				}
 				return true
 			})
+		}
+	}
+}
+
+// asmGlobals: package-level variables referenced from assembly, per assembly
+// function (TEXT block). Assembly is opaque to the source instrumentation, so
+// a call of such a function is treated as a write access to those variables.
+var asmGlobals = map[*types.Func][]*types.Var{}
+
+var (
+	reAsmText = regexp.MustCompile(`^TEXT\s+·(\w+)\(SB\)`)
+	reAsmSym  = regexp.MustCompile(`·(\w+)(?:[+-]\d+)?\(SB\)`)
+)
+
+func scanAssembly(p *pkgInfo, tags []string) {
+	ctx := build.Default
+	ctx.BuildTags = tags
+	ents, _ := os.ReadDir(p.dir)
+	for _, e := range ents {
+		if e.IsDir() || !strings.HasSuffix(e.Name(), ".s") {
+			continue
+		}
+		if ok, _ := ctx.MatchFile(p.dir, e.Name()); !ok {
+			continue
+		}
+		b, err := os.ReadFile(filepath.Join(p.dir, e.Name()))
+		if err != nil {
+			continue
+		}
+		var cur *types.Func
+		for _, line := range strings.Split(string(b), "\n") {
+			if m := reAsmText.FindStringSubmatch(line); m != nil {
+				cur, _ = p.pkg.Scope().Lookup(m[1]).(*types.Func)
+				continue
+			}
+			if cur == nil {
+				continue
+			}
+			if i := strings.Index(line, "//"); i >= 0 {
+				line = line[:i]
+			}
+			for _, m := range reAsmSym.FindAllStringSubmatch(line, -1) {
+				if v, ok := p.pkg.Scope().Lookup(m[1]).(*types.Var); ok {
+					dup := false
+					for _, x := range asmGlobals[cur] {
+						if x == v {
+							dup = true
+						}
+					}
+					if !dup {
+						asmGlobals[cur] = append(asmGlobals[cur], v)
+						mutableAll[v] = true
+					}
+				}
+			}
 		}
 	}
 }
